@@ -59,7 +59,9 @@ func VerifHarness_C01_notify() {
 		case 2:
 			w.deliver()
 		case 3:
+			w.interleavePoll = 1 // the check may also run while the processor holds a block
 			w.process()
+			w.interleavePoll = 0
 		}
 		w.checkInSyncNotifications(before)
 	}
